@@ -6,6 +6,8 @@ import (
 	"errors"
 	"fmt"
 	"io"
+
+	"semtest/ext"
 )
 
 var counter int
@@ -251,3 +253,27 @@ func BadRangeMutBytes(b []byte) int {
 type cfg struct{ m map[int]int }
 
 func BadStructParamMapStore(c cfg) int { c.m[1] = 2; return 0 }
+
+// uninitialised memory and mutating methods (phase 3)
+type codec interface{ WriteTo(b []byte, w getter) int }
+
+func BadTwoDirty(n int) int {
+	a := ext.Dirty(n, n)
+	b := ext.Dirty(n, n)
+	return len(a) + len(b)
+}
+func BadDirtAlias(n int) byte {
+	a := ext.Dirty(n, n)
+	c := a
+	c[0] = 1
+	return a[0]
+}
+func BadDirtLoop(n int) int {
+	s := 0
+	for i := 0; i < n; i++ {
+		a := ext.Dirty(i, i)
+		s += len(a)
+	}
+	return s
+}
+func BadIfaceArg(c codec, g getter, b []byte) int { return c.WriteTo(b, g) }
